@@ -3,6 +3,7 @@ package sym
 import (
 	"fmt"
 	"go/types"
+	"os"
 	"sort"
 	"strings"
 
@@ -84,6 +85,8 @@ func (ex *Exec) resetPath(prefix []int32) {
 	ex.allocElems = 0
 	ex.sidecar = map[string]interface{}{}
 	ex.lastPanic = ""
+	ex.inInit = 0
+	ex.prov = map[*term.T]provRec{}
 }
 
 // RunPath executes the entry function along the given decision prefix.
@@ -218,7 +221,21 @@ func (ex *Exec) assert(c *term.T, id string) {
 		notKnown = tb.BAnd(notKnown, tb.BNot(rt))
 	}
 	nc := tb.BNot(c)
+	if os.Getenv("GOSYM_ATRACE") != "" {
+		str := term.Sprint(c)
+		if len(str) > 1500 {
+			str = str[:1500]
+		}
+		fmt.Fprintf(os.Stderr, "assert %s size=%d: %s\n", id, c.Size(), str)
+	}
 	rec := assertRec{ID: id}
+	if os.Getenv("GOSYM_FRESHTEST") != "" {
+		as := append(append([]*term.T{}, ex.pc...), nc, notKnown)
+		for _, k := range []string{"z3", "z3-new", "cvc5"} {
+			fr, _, d, err := smt.CheckFresh(k, 60000, as, nil)
+			fmt.Fprintf(os.Stderr, "fresh %s %s: %s %s %v\n", id, k, fr, d, err)
+		}
+	}
 	ex.sol.Push()
 	ex.sol.Assert(nc)
 	ex.sol.Assert(notKnown)
@@ -240,6 +257,37 @@ func (ex *Exec) assert(c *term.T, id string) {
 		rec.Msg = ex.sol.LastError
 	}
 	ex.sol.Pop()
+	if rec.Status == "unknown" {
+		// second opinion: one-shot (non-incremental) solver run on the flattened query
+		as := append(append([]*term.T{}, ex.pc...), nc, notKnown)
+		var want []*term.T
+		for _, d := range ex.draws {
+			if d.T != nil {
+				want = append(want, d.T)
+			}
+		}
+		fr, vals, _, err := smt.CheckFresh(ex.sol.Kind, ex.sh.FreshMs, as, want)
+		ex.nFresh++
+		switch {
+		case err != nil:
+			rec.Msg = err.Error()
+		case fr == smt.Unsat:
+			rec.Status = "discharged"
+		case fr == smt.Sat:
+			rec.Status = "violated"
+			m := map[string]uint64{}
+			i := 0
+			for _, d := range ex.draws {
+				if d.T != nil {
+					m[d.Name] = vals[i]
+					i++
+				} else {
+					m[d.Name] = d.Val
+				}
+			}
+			rec.Model = m
+		}
+	}
 	ex.asserts = append(ex.asserts, rec)
 	for i, rt := range regs {
 		ex.sol.Push()
